@@ -978,15 +978,19 @@ func (c *CharSet) addLowercase() {
 	}
 	c.unflip()
 	toAdd := []SingleRange{}
+	var lowered []SingleRange
 	for i := 0; i < len(c.ranges); i++ {
 		r := c.ranges[i]
 		if r.First == r.Last {
-			lower := unicode.ToLower(r.First)
-			c.ranges[i] = SingleRange{First: lower, Last: lower}
+			// keep the character itself (it must still match) and add its lowercase form
+			if lower := unicode.ToLower(r.First); lower != r.First {
+				lowered = append(lowered, SingleRange{First: lower, Last: lower})
+			}
 		} else {
 			toAdd = append(toAdd, r)
 		}
 	}
+	c.ranges = append(c.ranges, lowered...)
 
 	for _, r := range toAdd {
 		c.addLowercaseRange(r.First, r.Last)
